@@ -70,7 +70,7 @@ func c12ReplaceRefresh(c *Ctx) {
 
 // R2: children list and items set move together.
 func c12Paired(c *Ctx) {
-	c.Rule("R2 paired: in the methods of hclwrite types that hold both a children list and an items set (Body, blockLabels): every Detach() of a node is followed on every path by items.Remove of the same node; every children.Clear() is accompanied by items.Clear() on every path (and vice versa); every items.Add(n) adds a node that was appended to children")
+	c.Rule("R2 paired: in the methods of hclwrite types that hold both a children list and an items set (Body, blockLabels): every Detach() of a node is accompanied on every path (before or after) by items.Remove of the same node; every children.Clear() is accompanied by items.Clear() on every path (and vice versa); every items.Add(n) adds a node that was appended to children")
 	detach := c.P.LookupFunc("hclwrite", "node.Detach")
 	remove := c.P.LookupFunc("hclwrite", "nodeSet.Remove")
 	nclear := c.P.LookupFunc("hclwrite", "nodes.Clear")
@@ -172,11 +172,12 @@ func c12Paired(c *Ctx) {
 					nDetach++
 					c.Fn(name)
 					node := call.Call.Args[0]
-					ok := mustFollow(call, func(i2 ssa.Instruction) bool {
+					isRemove := func(i2 ssa.Instruction) bool {
 						c2 := isCallTo(i2, remove)
 						return c2 != nil && (c2.Call.Args[1] == node || sameCell(c2.Call.Args[1], node))
-					})
-					c.Check(ok, "paired", name+":call[Detach]", call.Pos(), "followed by items.Remove of the same node on every path",
+					}
+					ok := mustFollow(call, isRemove) || precededBy(call, isRemove)
+					c.Check(ok, "paired", name+":call[Detach]", call.Pos(), "accompanied by items.Remove of the same node on every path",
 						"a node is detached from children without being removed from the items set on some path: accessors iterating items keep returning the removed item")
 				}
 				if call := isCallTo(ins, nclear); call != nil {
